@@ -106,6 +106,10 @@ func c15Run(t *testing.T, s *sim.Scn) *sim.Outcome {
 		switch op.K {
 		case "block":
 			n := int(op.A % 6)
+			if op.C%13 == 6 {
+				n = []int{513, 700, 1100}[op.A%3] // a large block
+				o.Count("large-blocks", 1)
+			}
 			var txs [][]byte
 			for j := 0; j < n; j++ {
 				kn := (int(op.B) + j) % 5
@@ -148,7 +152,15 @@ func c15Run(t *testing.T, s *sim.Scn) *sim.Outcome {
 			case 2:
 				bad = []byte("/genesis/initialized=overwrite")
 			}
-			txs := [][]byte{[]byte(fmt.Sprintf("good%d=1", i)), bad}
+			// the malformed transaction sits behind a seeded number of good ones (blocks of up to 1100 transactions)
+			ngood := []int{1, 1, 30, 511, 512, 513, 700, 1100}[op.B%8]
+			txs := make([][]byte, 0, ngood+4)
+			txs = append(txs, []byte(fmt.Sprintf("good%d=1", i)))
+			for j := 1; j < ngood; j++ {
+				txs = append(txs, []byte(fmt.Sprintf("bulk%d-%04d=%d", i, j, j)))
+			}
+			txs = append(txs, bad, []byte(fmt.Sprintf("after%d=1", i)))
+			o.Count(fmt.Sprintf("malformed-tx-behind-%d-good-ones", ngood), 1)
 			for _, in := range insts {
 				if _, _, err := in.ex.ExecuteTxs(ctx, txs, height+1, gt, prev[in.name]); err == nil {
 					o.Fail("C15/malformed-block-accepted", "", i, fmt.Sprintf("%s executed a block containing %q", in.name, bad), "an error")
@@ -160,9 +172,11 @@ func c15Run(t *testing.T, s *sim.Scn) *sim.Outcome {
 					o.Fail("C15/malformed-block-changed-state", "", i, fmt.Sprintf("%s: state root changed after a failed block (err=%v)", in.name, err), "executing a block with a malformed transaction changes nothing")
 					return o
 				}
-				if _, ok := in.ex.GetStoreValue(ctx, fmt.Sprintf("good%d", i)); ok {
-					o.Fail("C15/malformed-block-changed-state", "", i, fmt.Sprintf("%s: a transaction of the failed block is visible", in.name), "nothing changes")
-					return o
+				for _, k := range []string{fmt.Sprintf("good%d", i), fmt.Sprintf("bulk%d-%04d", i, ngood/2), fmt.Sprintf("after%d", i)} {
+					if _, ok := in.ex.GetStoreValue(ctx, k); ok {
+						o.Fail("C15/malformed-block-changed-state", "", i, fmt.Sprintf("%s: transaction %q of the failed block (%d transactions before the malformed one) is visible", in.name, k, ngood), "nothing changes")
+						return o
+					}
 				}
 			}
 			o.Count("malformed-blocks", 1)
@@ -242,7 +256,7 @@ func c15Gen(r *rand.Rand, tier string) *sim.Scn {
 		case x < 40:
 			s.Ops = append(s.Ops, sim.Op{K: "block", A: r.Int64N(6), B: r.Int64N(5), C: r.Int64N(42)})
 		case x < 48:
-			s.Ops = append(s.Ops, sim.Op{K: "bad", A: r.Int64N(3)})
+			s.Ops = append(s.Ops, sim.Op{K: "bad", A: r.Int64N(3), B: r.Int64N(8)})
 		case x < 55:
 			s.Ops = append(s.Ops, sim.Op{K: "again"})
 		case x < 72:
